@@ -212,7 +212,25 @@ WrapRoot(i) ==
        /\ kids' = [kids EXCEPT ![m] = <<root>>] /\ root' = m
     /\ Step /\ UNCHANGED sorig
 
+\* response-level wrapping in one step: a forged response becomes the document element, takes over the first signature of
+\* the old one, and keeps the old document element (now signature-less, as it was digested) as a child -- directly, or
+\* inside an Extensions / ds:Object container
+WrapRootLift(i, c) ==
+    /\ ChildrenOfKind(root, "Sig") # <<>>
+    /\ Cardinality(Free) >= (IF c = "direct" THEN 1 ELSE 2)
+    /\ LET s == ChildrenOfKind(root, "Sig")[1]
+           m == Lowest
+           h == IF c = "direct" THEN root ELSE CHOOSE n \in Free \ {m} : \A x \in Free \ {m} : n <= x
+       IN /\ kind' = IF c = "direct" THEN [kind EXCEPT ![m] = "Resp"] ELSE [kind EXCEPT ![m] = "Resp", ![h] = c]
+          /\ ida' = [ida EXCEPT ![m] = i]
+          /\ content' = [content EXCEPT ![m] = "forged"]
+          /\ kids' = IF c = "direct" THEN [kids EXCEPT ![m] = <<s, root>>, ![root] = Without(kids[root], s)]
+                     ELSE [kids EXCEPT ![m] = <<s, h>>, ![h] = <<root>>, ![root] = Without(kids[root], s)]
+          /\ root' = m
+    /\ Step /\ UNCHANGED sorig
+
 Edit == \/ \E n \in Node : Forge(n) \/ Drop(n)
+        \/ \E i \in Ids \cup {NoId}, c \in {"direct", "Ext", "Obj"} : WrapRootLift(i, c)
         \/ \E n \in Node, i \in Ids \cup {NoId} : SetId(n, i)
         \/ \E n \in Node, p \in Node, pos \in {"first", "last"} : Move(n, p, pos)
         \/ \E k \in {"Asrt"} \cup Containers, c \in {"genuine", "forged", "-"}, i \in Ids \cup {NoId},
@@ -227,6 +245,9 @@ Spec == Init /\ [][Next]_vars
 (***************************************************************************)
 (* Emission: the documents worth executing                                  *)
 (***************************************************************************)
+\* (Of every sealed document at <= 1 edit the concretiser makes one more twin, "bare": a second cipher text of the attacker's
+\* own -- a forged assertion encrypted for the SP -- as a bare EncryptedData child of the Response in front of the
+\* EncryptedAssertion.  It is judged like the sealed twins, by the provenance of the identity the SP accepts.)
 \* Seal: the last thing the attacker (like the issuer) can do to an assertion-level document is to encrypt one
 \* top-level assertion, whatever it has become, for the SP's public key.  The SP then sees plain and decrypted
 \* assertions side by side; the identity it reports must still come from genuine, covered content.
